@@ -16,3 +16,4 @@ def run(chk):
     c06.run(chk, mode_filter=lambda m: m in AEAD_MODES or m == 'IMB_CIPHER_DOCSIS_SEC_BPI', alg_filter=lambda a: a in AEAD_ALGS,
             only_cells=True, ids=('B2', 'B2h', 'B2o'))
     clones.rule_clones(chk, 'N1', select=lambda s: bool(_re.search(r'gcm|ccm|pon|docsis', s)), floor=20)
+    clones.rule_const_width(chk, 'N2', floor=100)
